@@ -49,7 +49,7 @@ for _f, _n in (("P1", 10), ("P2", 6), ("P3", 4), ("P4", 8), ("P5", 15), ("P6", 8
 for _f, _n in (("B1", 25), ("B2", 20), ("B3", 5)):
     reg(_f, getattr(tables, "rule_" + _f), _n)
 
-for _f, _n in (("Q1", 20), ("Q2", 12), ("Q3", 4), ("Q4", 3), ("C1", 15), ("C2", 5)):
+for _f, _n in (("Q1", 20), ("Q2", 12), ("Q3", 4), ("Q4", 2), ("C1", 15), ("C2", 5)):
     reg(_f, getattr(cue, "rule_" + _f), _n)
 
 for _f, _n in (("I1", 10), ("I2", 6), ("I3", 3), ("I4", 5), ("I5", 6), ("I6", 60), ("O1", 6), ("R1", 1)):
